@@ -193,8 +193,9 @@ def rule_index_spaces(ctx, rep, config="c-lib"):
 
 
 def rule_pl_capacity(ctx, rep, config="c-lib"):
-    rep.rule("R16-cap", "the parser list has room for the start set, one set per token and one `error' set per token: pl_create allocates at least 2 * toks_len + 1 "
-                        "elements (sizes compared as linear forms over toks_len; a larger allocation passes); nothing else bounds the unchecked appends pl[++pl_curr]")
+    rep.rule("R16-cap", "the parser list has room for the start set, one set per token and one `error' set per token: pl_create gives pl at least 2 * toks_len + 1 "
+                        "elements, and each array that is kept parallel to it (placed behind it in the same block) as many; the block is large enough for all of them "
+                        "(sizes compared as linear forms over toks_len; larger passes); nothing else bounds the unchecked appends pl[++pl_curr]")
     p = ctx.prog(config)
     f = p.fn("pl_create")
     rep.cover(p, [f.name])
@@ -207,18 +208,54 @@ def rule_pl_capacity(ctx, rep, config="c-lib"):
     expr.NAMED[0] = True
     try:
         sz = expr.lin(f, c.args[-1], 0, 1)
+        # arrays carved out of the same block:  G = previous array + offset
+        chain = []        # (global, offset in bytes from the previous one)
+        prev = "L[@pl]"
+        progress = True
+        while progress:
+            progress = False
+            for s in f.all_insts():
+                if s.op != "store":
+                    continue
+                pa = resolve_addr(f, s.ops[1])
+                if pa.root[0] != "g" or pa.steps or pa.root[1] in [g for (g, _) in chain] or pa.root[1] == "pl":
+                    continue
+                v = expr.lin(f, s.ops[0], 0, 1)
+                if v.t.get(prev) == 1:
+                    off = expr.Lin(v.c, dict((a, k) for a, k in v.t.items() if a != prev))
+                    chain.append((pa.root[1], off))
+                    prev = "L[@%s]" % pa.root[1]
+                    progress = True
     finally:
         expr.NAMED[0] = False
-    need = expr.Lin(8, {"L[@toks_len]": 16})
-    d = sz.add(need, -1)
     if set(sz.t.keys()) - set(["L[@toks_len]"]):
         raise AnalysisBroken("R16-cap: the size of the parser list (%r) is not a linear form over toks_len" % sz)
-    if d.c >= 0 and all(v >= 0 for v in d.t.values()):
-        rep.ok("R16-cap", "pl_create/capacity", sample={"allocation": c.where(), "bytes": repr(sz), "needed": repr(need)})
+
+    def ge(a, b):
+        d = a.add(b, -1)
+        return d.c >= 0 and all(v >= 0 for v in d.t.values())
+    need_sets = expr.Lin(8, {"L[@toks_len]": 16})     # (2 * toks_len + 1) pointers
+    need_ints = expr.Lin(4, {"L[@toks_len]": 8})      # (2 * toks_len + 1) ints
+    # extents: pl up to the first parallel array, each parallel array up to the next, the last one up to the end of the block
+    used = expr.Lin(0)
+    okk = True
+    why = ""
+    exts = []
+    for k, (g, off) in enumerate(chain):
+        exts.append(("pl" if k == 0 else chain[k - 1][0], off))
+        used = used.add(off)
+    last_name = chain[-1][0] if chain else "pl"
+    exts.append((last_name, sz.add(used, -1)))
+    for (name, ext) in exts:
+        need = need_sets if name == "pl" else need_ints
+        if set(ext.t.keys()) - set(["L[@toks_len]"]) or not ge(ext, need):
+            okk = False
+            why = "`%s' gets %r bytes, fewer than the %r bytes of 2 * toks_len + 1 elements" % (name, ext, need)
+    if okk:
+        rep.ok("R16-cap", "pl_create/capacity", sample={"allocation": c.where(), "bytes": repr(sz), "arrays": [n_ for (n_, _) in exts]})
     else:
-        rep.violation("R16-cap", "pl_create/capacity", "the parser list is allocated with %r bytes, fewer than the %r bytes of 2 * toks_len + 1 sets: an input whose every token "
-                      "(and the end marker) is accepted only after an `error' shift appends 2 * toks_len + 1 sets, the last one behind the array" % (sz, need),
-                      where=c.where(), witness=[c.where()])
+        rep.violation("R16-cap", "pl_create/capacity", "%s: an input whose every token (and the end marker) is accepted only after an `error' shift appends 2 * toks_len + 1 sets, the "
+                      "last one behind the array" % why, where=c.where(), witness=[c.where()])
 
 
 def rule_total_loss(ctx, rep, config="c-lib"):
@@ -269,3 +306,67 @@ def rule_total_loss(ctx, rep, config="c-lib"):
                       "error_recovery returns -1/-1 and build_pl reads toks[-1]" % user[0][1], where=c.where(), witness=[user[0][0].where(), c.where()])
     else:
         rep.ok("R16-recover", "yaep_read_grammar/total-loss-rule", sample={"rule_added_at": c.where()})
+
+
+def rule_parallel_arrays(ctx, rep, config="c-lib"):
+    rep.rule("R16-parallel", "pl_tok_nums is kept parallel to pl: every store of a set into pl[k] is followed, in the same block, by a store into pl_tok_nums[k] with the same "
+                             "index (as linear forms; a reload of a variable is taken as the value stored to it before in the block) -- the token whose shift gave the set, "
+                             "or -1; make_parse takes token numbers only from that array")
+    from ..model import strip_int_casts
+    p = ctx.prog(config)
+    if "pl_tok_nums" not in p.m.globals:
+        raise AnalysisBroken("R16-parallel: the array of token numbers parallel to the parser list does not exist")
+
+    def elem(f, addr, gname):
+        """index operand (or the constant 0) when addr is an element of the array the global pointer gname points to"""
+        pa = resolve_addr(f, addr)
+        if pa.root[0] != "val" or pa.fields():
+            return None
+        lp = loaded_from(f, pa.root[1])
+        if lp is None or lp.root != ("g", gname) or lp.steps:
+            return None
+        ixs = [st for st in pa.steps if st[0] in ("idx", "ptr")]
+        if len(ixs) > 1:
+            return None
+        return ixs[0][1] if ixs else {"k": "c", "v": 0, "w": 32}
+
+    def index_lin(f, op, at):
+        """linear form of an index; a load of a global that was stored to earlier in the block of `at' is replaced by the stored value"""
+        o = strip_int_casts(f, op)
+        i = f.inst(o)
+        if i is not None and i.op == "load":
+            pa = resolve_addr(f, i.ops[0])
+            if pa.root[0] == "g" and not pa.steps:
+                prev = [t for t in at.block.insts if t.op == "store" and t.idx < i.idx and resolve_addr(f, t.ops[1]).root == pa.root and not resolve_addr(f, t.ops[1]).steps]
+                if prev and i.block is at.block:
+                    return expr.lin(f, prev[-1].ops[0], 0, 1)
+        return expr.lin(f, op, 0, 1)
+    n = 0
+    for f in p.m.defined():
+        if f.module and not f.module.startswith("yaep."):
+            continue
+        for s_ in f.all_insts():
+            if s_.op != "store":
+                continue
+            ixo = elem(f, s_.ops[1], "pl")
+            if ixo is None:
+                continue
+            n += 1
+            rep.cover(p, [f.name])
+            key = "%s/pl-store#%d" % (f.name, n)
+            ix = index_lin(f, ixo, s_)
+            mate = None
+            for t in s_.block.insts:
+                if t.op != "store" or t.idx <= s_.idx:
+                    continue
+                tio = elem(f, t.ops[1], "pl_tok_nums")
+                if tio is not None and index_lin(f, tio, t) == ix:
+                    mate = t
+                    break
+            if mate is not None:
+                rep.ok("R16-parallel", key, sample={"set_stored_at": s_.where(), "token_number_at": mate.where()})
+            else:
+                rep.violation("R16-parallel", key, "a set is stored into the parser list without its token number being stored into pl_tok_nums at the same index: the "
+                              "translation pass reads a stale number there -- TERM nodes with the attribute of another token, or an index outside the token array",
+                              where=s_.where(), witness=[s_.where()])
+    rep.floor("R16-parallel", "stores of sets into the parser list", n, 7)
